@@ -3,6 +3,7 @@ mod deviate;
 mod faults;
 mod apigen;
 mod phys;
+mod damage;
 mod layout;
 mod backend;
 mod handle;
@@ -127,6 +128,13 @@ fn main() {
             };
             for v in &violations {
                 println!("ORACLE {}", v);
+            }
+        }
+        "damage" => {
+            if let Some(img) = arg(&args, "--replay") {
+                damage::replay(img, arg(&args, "--history").unwrap());
+            } else {
+                damage::campaign(arg_u64(&args, "--seed", 1), arg(&args, "--bases").unwrap(), arg_u64(&args, "--count", 500), arg_u64(&args, "--max-ops", 10), arg(&args, "--keepdir").unwrap());
             }
         }
         "layout" => {
